@@ -43,6 +43,19 @@ type GenCfg struct {
 	FailTailPct                                                                               int    // percentage of programs that end in a failing terminal after their blocks (C12b)
 	MemCap                                                                                    uint64 // largest size operand of metered memory operations
 	Excl                                                                                      *Exclusions
+	// conversion-only mixes (C20 part O): no ETX opcode, out-of-scope CALLs only to in-zone Qi
+	// addresses (conversions), no arbitrary-byte tail
+	NoETXOp, ExtOnlyConv, NoRawTail, NoInitSelfdestruct bool
+	// NestOps are the weights of CALL, DELEGATECALL, CALLCODE, STATICCALL for calls into other
+	// generated contracts (nil = 8,2,1,1)
+	NestOps []int
+	// ConvHappyPct: percentage of CONVERT / conversion-CALL blocks whose value operand is computed
+	// at run time as a fraction of the executing account's balance (so that it is fundable in
+	// whatever context the code runs, e.g. under DELEGATECALL) with a sane gas limit
+	ConvHappyPct int
+	// NestDAG: calls into other generated contracts only go to contracts with a higher index than
+	// the caller (no call cycles, so that gas is not burnt by mutual recursion)
+	NestDAG bool
 }
 
 // DefaultCfg is the C02 mix; ExportCfg is the C05 mix (biased to value-exporting operations).
@@ -58,6 +71,13 @@ func MemCfg() GenCfg {
 // FailCfg is the C12(b) mix: nested frames that produce effects and then fail.
 func FailCfg() GenCfg {
 	return GenCfg{MaxBlocks: 5, Depth: 2, WNoise: 1, WStorage: 6, WMem: 1, WCall: 4, WCreate: 5, WExport: 4, WLockup: 5, WSelfdestruct: 2, WLoop: 1, WTerminal: 3, WNest: 28, MemCap: 1 << 16, FailTailPct: 35}
+}
+// ConvCfg is the C20 part-O mix: Quai->Qi conversions (CONVERT, value CALLs to in-zone Qi
+// addresses) are the only way value leaves the ledger; deep nesting through every frame kind with
+// frequent failing tails.
+func ConvCfg() GenCfg {
+	return GenCfg{MaxBlocks: 4, Depth: 2, WNoise: 1, WStorage: 1, WMem: 1, WCall: 3, WCreate: 3, WExport: 12, WLockup: 0, WSelfdestruct: 0, WLoop: 1, WTerminal: 2, WNest: 30, MemCap: 1 << 16, FailTailPct: 30, ConvHappyPct: 70, NestDAG: true,
+		NoETXOp: true, ExtOnlyConv: true, NoRawTail: true, NoInitSelfdestruct: true, NestOps: []int{4, 4, 3, 1}}
 }
 func ExportCfg() GenCfg {
 	return GenCfg{MaxBlocks: 5, Depth: 2, WNoise: 1, WStorage: 1, WMem: 2, WCall: 5, WCreate: 2, WExport: 12, WLockup: 10, WSelfdestruct: 1, WLoop: 1, WTerminal: 1, WNest: 15, MemCap: 1 << 20}
@@ -561,8 +581,25 @@ func (g *ProgGen) call(a *Asm, h *Hints) {
 func (g *ProgGen) callContract(a *Asm, h *Hints) {
 	u := U()
 	ops := []vm.OpCode{vm.CALL, vm.DELEGATECALL, vm.CALLCODE, vm.STATICCALL}
-	op := ops[g.weighted("ccop", 8, 2, 1, 1)]
+	w := []int{8, 2, 1, 1}
+	if len(g.Cfg.NestOps) == 4 {
+		w = g.Cfg.NestOps
+	}
+	op := ops[g.weighted("ccop", w...)]
 	t := u.Contracts[g.intn("cct", len(u.Contracts))]
+	if g.Cfg.NestDAG {
+		self := -1
+		for i, c := range u.Contracts {
+			if c.Equal(h.Self) {
+				self = i
+			}
+		}
+		if self+1 >= len(u.Contracts) {
+			g.noise(a, h)
+			return
+		}
+		t = u.Contracts[self+1+g.intn("cctd", len(u.Contracts)-self-1)]
+	}
 	g.kind(op.String() + ">contract!")
 	a.Push(0).Push(0).Push(uint64(g.intn("ccin", 2))).Push(0)
 	if op == vm.CALL || op == vm.CALLCODE {
@@ -856,6 +893,16 @@ func (g *ProgGen) convert(a *Asm, h *Hints) {
 	default:
 		dest, dclass = u.ForeignQuai[0], "foreignQuai"
 	}
+	if g.Cfg.ConvHappyPct > 0 && g.flip("convhappy", g.Cfg.ConvHappyPct) {
+		// value = balance(self) / k, evaluated by the program
+		k := uint64(2 + g.intn("ck", 6))
+		lim := []uint64{params.TxGas, params.TxGas, 100000}[g.intn("chl", 3)]
+		g.kind("CONVERT:" + dclass + ":dyn")
+		a.Comment("CONVERT dest=%s value=balance/%d gaslimit=%d", dclass, k, lim)
+		a.Push(lim).Push(k).Op(vm.ADDRESS, vm.BALANCE, vm.DIV).PushAddr(dest).Push(0).Op(vm.CONVERT)
+		g.consumeFlag(a)
+		return
+	}
 	value, vclass := g.valueFor("cv", h.Balance, params.MinQuaiConversionAmount)
 	limit, lclass := g.etxGasLimit("cl")
 	if !PostArithFork(g.Env.PrimeTerminusNumber) && g.Cfg.Excl != nil && g.Cfg.Excl.LegacyWrapConvert {
@@ -879,7 +926,11 @@ func (g *ProgGen) extCall(a *Asm, h *Hints) {
 	var dest common.Address
 	dclass := ""
 	var min *big.Int
-	switch g.weighted("xd", 5, 2, 5, 1) {
+	xw := []int{5, 2, 5, 1}
+	if g.Cfg.ExtOnlyConv {
+		xw = []int{0, 0, 1, 0}
+	}
+	switch g.weighted("xd", xw...) {
 	case 0:
 		dest, _ = g.foreignDest("d", true, false)
 		dclass = "foreignQuai"
@@ -897,6 +948,14 @@ func (g *ProgGen) extCall(a *Asm, h *Hints) {
 		min = params.MinQuaiConversionAmount
 	default:
 		dest, dclass = u.ForeignQi[g.intn("q", len(u.ForeignQi))], "foreignQi"
+	}
+	if g.Cfg.ConvHappyPct > 0 && min != nil && g.flip("exthappy", g.Cfg.ConvHappyPct) {
+		k := uint64(2 + g.intn("xk", 6))
+		g.kind("CALL-EXT:" + dclass + ":dyn")
+		a.Comment("CALL to out-of-scope %s value=balance/%d all gas", dclass, k)
+		a.Push(0).Push(0).Push(0).Push(0).Push(k).Op(vm.ADDRESS, vm.BALANCE, vm.DIV).PushAddr(dest).Op(vm.GAS, vm.CALL)
+		g.consumeFlag(a)
+		return
 	}
 	value, vclass := g.valueFor("xv", h.Balance, min)
 	g.kind("CALL-EXT:" + dclass)
@@ -957,7 +1016,11 @@ func (g *ProgGen) initCode(h *Hints, depth int) []byte {
 	for i := 0; i < nb; i++ {
 		g.block(a, h, depth, false)
 	}
-	switch g.weighted("iend", 6, 3, 2, 1, 1, 1, 1) {
+	wsd := 1
+	if g.Cfg.NoInitSelfdestruct {
+		wsd = 0
+	}
+	switch g.weighted("iend", 6, 3, 2, 1, 1, 1, wsd) {
 	case 0: // return a small generated runtime
 		rt := NewAsm()
 		for i := 0; i < 1+g.intn("rb", 2); i++ {
@@ -1075,6 +1138,12 @@ func (g *ProgGen) block(a *Asm, h *Hints, depth int, inLoop bool) {
 	wETX := c.WExport * 2
 	wConv := c.WExport
 	wExt := (c.WExport + 3) / 4 // a CALL to an out-of-scope address always dies in the gas function
+	if c.NoETXOp {
+		wETX = 0
+	}
+	if c.ExtOnlyConv {
+		wExt = 1 // (a contract's CALL to a Qi address dies in the gas function, like every out-of-scope CALL)
+	}
 	if !inLoop && g.weighted("nest", 100-c.WNest, c.WNest) == 1 {
 		g.callContract(a, h)
 		return
@@ -1139,7 +1208,7 @@ func (g *ProgGen) Program(h *Hints) Program {
 			a.Push(1 << 30).Op(vm.MLOAD)
 		}
 	}
-	if g.flip("rawtail", 3) {
+	if !g.Cfg.NoRawTail && g.flip("rawtail", 3) {
 		// low-weight arbitrary bytes
 		n := 1 + g.intn("rawn", 24)
 		for i := 0; i < n; i++ {
